@@ -290,13 +290,18 @@ func (w *world) projection() string {
 		if i > 0 {
 			sb.WriteByte(';')
 		}
-		le := j.LastErr
-		fmt.Fprintf(&sb, "%d%d%d%d:%s:", b2i(j.Listed), b2i(j.Started), b2i(j.Completed), b2i(j.Canceled), le)
-		for _, t := range j.Tasks {
-			sb.WriteString(t.Status)
-			sb.WriteByte(',')
+		if !j.Listed {
+			// nothing is reported about a job that is not listed (purged, lost); its runs may still be open
+			sb.WriteString("-:")
+		} else {
+			le := j.LastErr
+			fmt.Fprintf(&sb, "%d%d%d%d:%s:", b2i(j.Listed), b2i(j.Started), b2i(j.Completed), b2i(j.Canceled), le)
+			for _, t := range j.Tasks {
+				sb.WriteString(t.Status)
+				sb.WriteByte(',')
+			}
+			sb.WriteByte(':')
 		}
-		sb.WriteByte(':')
 		for ti, r := range w.st.Runs[i] {
 			if r.Open {
 				fmt.Fprintf(&sb, "%d,", ti+1)
